@@ -41,7 +41,7 @@ def _case(job):
         if rnd.random() < 0.3:
             a, b = (128, 128, 128), (120, 120, 120)
     text = spell_variant(a, c["spell"], seed, rnd)
-    bg = pairs.spell(b, rnd.choice(["tuple", "hex6", "rgbfn"]), rnd)
+    bg = pairs.spell(b, rnd.choice(["tuple", "hex6", "rgbfn", "list", "named" if False else "hexupper"]), rnd)
     vis = c["vis"]
     show, save = vis in (1, 3), vis in (2, 3)
     m = c["mode"]
@@ -52,7 +52,8 @@ def _case(job):
         ops.append(["fix", 2, m, vr, show, save])      # visible call FIRST on a fresh object, then the plain one
         ops.append(["fix", 2, m, vr, False, False])
     ops.append(["fix", 1, m, vr, False, False])
-    ents = [[E(text), E(bg), large], [E("#777777"), E("#ffffff"), True], [E("bogus"), E("#fff")]]
+    ents = [[E(text), E(bg), large], [E("#777777"), E("#ffffff"), True], [E("bogus"), E("#fff")], [E(text), E(bg), large],
+            [E(list(a)), E(list(b))], [E([a[0], a[1], a[2], 0.5]), E(bg)]]
     ops.append(["bulk", ents, m, vr, False])
     if save:
         ops.append(["bulk", ents, m, vr, True])
